@@ -423,7 +423,11 @@ def speed_units(F, R, rule='B.C19.speed-units'):
         if not ret.startswith('clock::clock_speed::ClockSpeed::%s(' % v):
             bad = 'for a target in %s the result is %s' % (v, ret[:80])
         elif ('ClockSpeed::as_%s(' % snake) not in ret or 'as_' in ret.replace('ClockSpeed::as_%s(' % snake, '').replace('as %s' % v, ''):
-            bad = 'for a target in %s the start value is not converted with as_%s(): %s' % (v, snake, ret[:140])
+            # ... or the conversion was made in front of the match, by a helper that matches on a copy of the target: on this
+            # path exactly one conversion was called, the target's, and its result is what is blended
+            convs = [cp for _, cp in p.calls if (cp or '').startswith('clock::clock_speed::ClockSpeed::as_')]
+            if not (convs == ['clock::clock_speed::ClockSpeed::as_%s' % snake] and 'Tweenable>::interpolate(' in ret and 'as_' not in ret.replace('as %s' % v, '')):
+                bad = 'for a target in %s the start value is not converted with as_%s(): %s' % (v, snake, ret[:140])
     R.check(bad is None and seen == {'SecondsPerTick', 'TicksPerSecond', 'TicksPerMinute'}, rule, 'interpolate',
             'ClockSpeed::interpolate: %s' % (bad or 'units seen: %s' % sorted(seen)), detail={'units': sorted(seen)}, where=b.file)
 
